@@ -382,6 +382,17 @@ func solveAll(e *Engine, obs []*Obligation, tier int, timeout time.Duration) {
 		}
 		jobs = append(jobs, job{ob, as})
 	}
+	if d := os.Getenv("VERIF_DUMP_ATTEMPTS"); d != "" {
+		os.MkdirAll(d, 0o755)
+		for ji, j := range jobs {
+			for ai, a := range j.as {
+				if ai > 0 && a.query == j.as[ai-1].query {
+					continue
+				}
+				os.WriteFile(filepath.Join(d, fmt.Sprintf("job%03d_a%d.smt2", ji, ai)), []byte("; "+j.ob.Name+"\n; "+j.ob.Msg+"\n; "+a.label+" lift-note="+j.ob.LiftNote+"\n"+a.query+"\n; SIDE\n"+a.side), 0o644)
+			}
+		}
+	}
 	for _, j := range jobs {
 		wg.Add(1)
 		sem <- struct{}{}
@@ -434,7 +445,8 @@ func hasBVTerms(ts []*Term) bool {
 
 // addLifted adds the integer-lifted encoding of an obligation (exact; side conditions as a second query).
 func (e *Engine) addLifted(as *[]attempt, ob *Obligation, msyms []*Term, tier int) {
-	nh, ng, side, ok, why := e.st.liftToInt(ob.Hyps, ob.Goal)
+	e.st.invPairs, e.st.invModulus = ob.InvPairs, ob.InvMod
+	nh, ng, side, ok, why := e.st.liftToInt(ob.Hyps, ob.Goal, false)
 	if !ok {
 		ob.LiftNote = why
 		return
@@ -465,6 +477,20 @@ func (e *Engine) addLifted(as *[]attempt, ob *Obligation, msyms []*Term, tier in
 	}
 	for _, c := range cfgs {
 		*as = append(*as, attempt{cfg: c, query: q, label: lab, satExact: true, side: sideQ})
+	}
+	if th == "nia" {
+		// product atoms: every monomial becomes an opaque bounded integer (pure LIA; unsat carries over)
+		if ah, ag, aside, ok2, _ := e.st.liftToInt(ob.Hyps, ob.Goal, true); ok2 {
+			q2 := e.st.buildQuery(ah, ag, true, nil)
+			s2 := ""
+			if !aside.IsTrue() {
+				s2 = e.st.buildQuery(ah, aside, true, nil)
+			}
+			lab2 := "int lifted from bv, monomials as opaque atoms (lia over-approximation)"
+			for _, c := range []SolverCfg{z3new, cvc5c} {
+				*as = append(*as, attempt{cfg: c, query: q2, label: lab2, satExact: false, side: s2})
+			}
+		}
 	}
 }
 
